@@ -102,6 +102,9 @@ func run(t *testing.T, c *vlib.Ctx, scenarios []Scenario) {
 		if only != "" && only != sc.Name {
 			continue
 		}
+		if !c.Thorough() && sc.QuickBound < 0 {
+			continue // thorough-only scenario
+		}
 		deadline := start.Add(time.Duration(budget * 0.9 * sumW(scenarios[:i+1]) / totalW * float64(time.Second)))
 		summary = append(summary, runScenario(c, sc, deadline))
 	}
